@@ -188,6 +188,21 @@ def metavars(text):
     return set(re.findall(r"\$([A-Za-z_]\w*)", text)) - {"crate"}
 
 
+def parse(repo):
+    """list of dicts {line, matcher(dict|None), trans(dict|None)} or None if the macro is absent"""
+    p = os.path.join(repo, "src", "interface", "macros.rs")
+    src = strip_comments(open(p).read()) if os.path.exists(p) else ""
+    arms = parse_arms(src)
+    if arms is None:
+        return None
+    res = []
+    for a in arms:
+        mt = parse_matcher(a["matcher"]) if a["matcher"] is not None else None
+        tr = parse_trans(a["trans"]) if a["trans"] is not None else None
+        res.append({"line": a["line"], "matcher": mt, "trans": tr})
+    return res
+
+
 def generate(repo):
     p = os.path.join(repo, "src", "interface", "macros.rs")
     src = strip_comments(open(p).read()) if os.path.exists(p) else ""
